@@ -231,6 +231,21 @@ Lemma minmax_unordered_refuted_w :
   /\ run_model PMin [ABasic KUnsafePtr; ABasic KUnsafePtr] = Err
   /\ run_model PMin [ABasic KBool; ABasic KBool] = Ok.
 Proof. vm_compute. repeat split. Qed.
+(* C09-fix-send-only-channel: dup.Add accepted every channel, the generated function receives
+   from a `chan T` parameter and the user's call with a chan<- T does not type-check *)
+Lemma sendonly_chan_refuted_w :
+  add_dup_prefix [AChan DSend (ABasic KInt)] = Ok /\
+  must_report PDup [AChan DSend (ABasic KInt)] = true /\
+  run_model PDup [AChan DSend (ABasic KInt)] = Err /\
+  run_model PDup [AChan DRecv (ABasic KInt)] = Ok.
+Proof. vm_compute. repeat split. Qed.
+(* C09-fix-untyped-constant-argument: hash.Add was add_one, and the generator has a case for the
+   untyped nil: deriveHash(nil) went through and printed `untyped nil` as the parameter type *)
+Lemma untyped_nil_refuted_w :
+  add_one [ABasic KUNil] = Ok /\ hash_stmt (ABasic KUNil) = Ok /\
+  must_report PHash [ABasic KUNil] = true /\ run_model PHash [ABasic KUNil] = Err /\
+  run_model PHash [ABasic KUInt] = Ok.
+Proof. vm_compute. repeat split. Qed.
 (* FieldStrings on a struct with a single field *)
 Lemma fieldstrings_single_refuted_w : fieldstrings_prefix 1 = Crash.
 Proof. reflexivity. Qed.
